@@ -133,6 +133,15 @@ def line_of_item(text, path):
 
 
 def run(chk):
+    progs_i, li = interaction_stream(chk)
+    for p_ in progs_i:
+        if p_['family'] != 'field-comments': continue
+        k_, v_ = outcome(li[p_['text']])
+        exp_ = [['// the reader'], ['// c1', '// c2', '// trailing c'], ['// trailing m'], ['// trailing g']]
+        try: got_ = [[c['text'] for c in f['comments']] for f in v_['decl'][0]['Type']['specs'][0]['typ']['TypeStruct']['fields']]
+        except Exception as e_: got_ = str(e_)
+        if got_ != exp_:
+            chk.oracle_fail('field-docs-backtracking', 'file', p_['text'], got_, exp_, 'the comments of a struct field whose type is read twice (interface elements, generic instantiation) are lost or misplaced')
     rng = random.Random(chk.seed)
     n = 1500 if chk.tier == 'quick' else 30000
     chk.rule = ('%d generated declaration sequences (package clause, func / var / const / type declarations, grouped specs, struct fields); before each item one of {none, attached group of 1-3 line or general comments, multi-line general comment, detached group, trailing comment on the previous line, multi-line trailing comment with further comments on its closing line, detached+attached}, '
